@@ -81,7 +81,7 @@ func TestC25(t *testing.T) {
 	n := 0
 	rapid.Check(t, func(rt *rapid.T) {
 		n++
-		if mode := rapid.SampledFrom([]string{"single", "single", "single", "single", "single", "single", "aborted-upload", "concurrent"}).Draw(rt, "mode"); mode != "single" {
+		if mode := rapid.SampledFrom([]string{"single", "single", "single", "single", "single", "single", "aborted-upload", "concurrent", "h2-upload-then-reset"}).Draw(rt, "mode"); mode != "single" {
 			c25Sequence(rt, rec, w, n, mode, ka)
 			return
 		}
